@@ -98,7 +98,7 @@ def outcome(r):
 
 def run(ctx):
     env = kit.Env(ctx)
-    n = ctx.scale(6000, 500_000)
+    n = ctx.scale(12000, 500_000)
     batch = 600 if ctx.tier == "quick" else 5000
     cases = gen_cases(ctx, env, n)
     defs = [["define", name, name, ["dimname", d]] for name, d in FRESH]
